@@ -62,12 +62,12 @@ def decode_signature(sel, cur):
 
 def build_funcdef(ctx, params, v: int):
     args = []
+    # mypy marks every argument in front of '/' as position-only - the receiver included
+    recv_pos_only = any(k == "pos_only" for _, k, _, _ in params)
     if ctx in (1, 4):
-        args.append(shim.argument("self", AK.ARG_POS, is_self=True))
+        args.append(shim.argument("self", AK.ARG_POS, is_self=True, pos_only=recv_pos_only))
     elif ctx == 2:
-        args.append(shim.argument("cls", AK.ARG_POS, is_cls=True))
-    has_var_pos = any(k == "var_pos" for _, k, _, _ in params)
-    del has_var_pos
+        args.append(shim.argument("cls", AK.ARG_POS, is_cls=True, pos_only=recv_pos_only))
     for name, kind, annotated, d in params:
         init = {
             "none": None, "int": shim.int_expr(v), "neg_int": shim.unary("-", shim.int_expr(v)),
